@@ -325,6 +325,11 @@ FinalBacklog(m, ev) ==
               /\ \A i \in 1..Len(OnWire) : OnWire[i].tag = Elig[first + i - 1].tag
   IN Check(m, "C13.bounded_backlog_keeps_the_oldest_items_in_order", \A ep \in DOMAIN m.blockedAt : ok(ep), ev)
 
+\* Recorded times are taken by the harness's own goroutines (the event consumer, the fake server): under load a record can be
+\* late by tens of milliseconds, which shortens a measured interval that BEGINS with it. Lower bounds therefore allow a third
+\* of the nominal interval (+ 5 ms); a delay that is skipped or halved is still far outside.
+RecordSlack(nominal) == nominal \div 3 + 5
+
 \* C14: reconnects of client-type endpoints
 FinalReconnect(m, ev) ==
   LET period == m.conf.reconnect_ms
@@ -336,7 +341,7 @@ FinalReconnect(m, ev) ==
              LET prevFail == IF A[i - 1].mode \in {"fail", "refuse", "accept_close"} THEN {A[i - 1].t} ELSE {}
                  closes == {m.closeTimes[j].t : j \in {x \in 1..Len(m.closeTimes) : m.closeTimes[x].ep = ep /\ m.closeTimes[x].seq < A[i].seq}}
                  ref == prevFail \cup closes
-             IN ref = {} \/ GapOk(A[i].t - Max(ref), period, period \div 10 + 5, 3000)
+             IN ref = {} \/ GapOk(A[i].t - Max(ref), period, RecordSlack(period), 3000)
       \* the harness only sees attempts its fake server accepts: not judged when the server refused or hung before
       firstOk(ep) == Len(real(ep)) = 0 \/ ep \in m.unobservable \/ real(ep)[1].t - m.tInit <= 1000
       \* every failure (close event before Close, failed attempt) that Close leaves enough time is followed by a new attempt
@@ -354,7 +359,7 @@ FinalReconnect(m, ev) ==
         LET O == opensOf(ep)
         IN \A i \in 2..Len(O) :
              LET closes == {m.closeTimes[j].t : j \in {x \in 1..Len(m.closeTimes) : m.closeTimes[x].ep = ep /\ m.closeTimes[x].seq < O[i].seq}}
-             IN closes = {} \/ GapOk(O[i].t - Max(closes), period, period \div 10 + 5, 3000)
+             IN closes = {} \/ GapOk(O[i].t - Max(closes), period, RecordSlack(period), 3000)
       m0 == Check(m, "C14.reconnects_after_every_failure", \A ep \in Eps(m) : m.kinds[ep + 1] \notin ClientKinds \/ retried(ep), ev)
   IN Check(Check(m0, "C14.reconnect_after_the_delay",
                  \A ep \in Eps(m) : m.kinds[ep + 1] \notin ClientKinds \/ (okGap(ep) /\ (m.kinds[ep + 1] # "udp_client" \/ okReopen(ep))), ev),
@@ -366,7 +371,7 @@ FinalIdle(m, ev) ==
       openT(k) == LET S == {i \in 1..Len(m.openTimes) : m.openTimes[i].ep = k[1] /\ m.openTimes[i].inst = k[2]} IN
                   IF S = {} THEN -1 ELSE m.openTimes[Min(S)].t
       closeRec(k) == {m.closeTimes[i] : i \in {x \in 1..Len(m.closeTimes) : m.closeTimes[x].ep = k[1] /\ m.closeTimes[x].inst = k[2]}}
-      silentOk(k) == openT(k) < 0 \/ \E c \in closeRec(k) : ~c.closing /\ IdleCloseOk(c.t, openT(k), idle, 20, 3000)
+      silentOk(k) == openT(k) < 0 \/ \E c \in closeRec(k) : ~c.closing /\ IdleCloseOk(c.t, openT(k), idle, RecordSlack(idle), 3000)
       activeOk(k) == openT(k) < 0 \/ \A c \in closeRec(k) : c.closing \/ c.t - openT(k) >= 4 * idle
   IN Check(Check(m, "C14.idle_connection_closed_after_timeout", \A k \in ToSet(m.conf.idle_silent) : silentOk(k), ev),
            "C14.active_connection_not_closed", \A k \in ToSet(m.conf.idle_active) : activeOk(k), ev)
@@ -379,7 +384,7 @@ FinalAuto(m, ev) ==
       cnt(ep) == Len(Get(m.hb, ep, <<>>))
       rateOk(ep) == LET w == window(ep)
                         expect == w \div period
-                    IN 10 * cnt(ep) >= 8 * expect - 20 /\ 10 * cnt(ep) <= 12 * expect + 20
+                    IN 10 * cnt(ep) >= 5 * expect - 20 /\ 10 * cnt(ep) <= 12 * expect + 20
       \* "spaced by the configured period": judged on long periods only (>= 200 ms), where scheduling jitter is small against
       \* the period: every gap between consecutive heartbeats of a steady channel lies in [period / 2, 2 * period]
       hbOut(ep) == Get(m.hb, ep, <<>>)
